@@ -147,6 +147,26 @@ func (comp) Gen(prop string, rng *rand.Rand, tier string) *core.History {
 // Sequences are enumerated up to renaming of the keys (a key not used before is always the smallest
 // unused one). The value written by the i-th op is the byte i, so every overwrite is visible.
 func (comp) Exhaustive(prop string, tier string, yield func(*core.History)) {
+	// LARGE-POPULATION histories (beyond the small scope): rings of several hundred slots filled past their capacity, one and three shards
+	for _, N := range []int{1, 3} {
+		S, n := 300, 360
+		if tier == "thorough" {
+			S, n = 520, 640
+		}
+		name := func(j int) []byte { return []byte(fmt.Sprintf("k%04d", j)) }
+		h := &core.History{}
+		all := make([][]byte, n) // the monitors follow the keys of the alphabet: all of them
+		for j := range all {
+			all[j] = name(j)
+		}
+		h.SetConfig(core.N(uint64(S)), core.N(uint64(N)), core.LB(all))
+		for j := 0; j < n; j++ {
+			h.Add(opPut, "put", core.B(name(j)), core.B([]byte{byte(j >> 8), byte(j)}))
+		}
+		h.Add(opGet, "get", core.B(name(n-1)))
+		h.Add(opGet, "get", core.B(name(0)))
+		yield(h)
+	}
 	type scope struct {
 		L     int
 		kinds []int
